@@ -1378,6 +1378,14 @@ def convert_prelu(op: Operation, arch, nng) -> Operation:
         if None in (ifm, alpha, ofm):
             return op
 
+        def set_shapes(new_op):
+            # The tensors may carry the shape of a bypassed reshape: the new operators keep the PReLU's own shapes
+            new_op.set_ifm_ofm_shapes()
+            for idx, inp in enumerate(new_op.inputs[:2]):
+                if inp is not alpha and inp.shape != []:
+                    new_op.ifm_shapes[idx] = op.ifm_shapes[0]
+            new_op.ofm_shapes[0] = op.ofm_shapes[0]
+
         if alpha.values is not None:
             # If const alpha check for possible optimisations
             alpha_zp = alpha.quantization.zero_point
@@ -1410,7 +1418,7 @@ def convert_prelu(op: Operation, arch, nng) -> Operation:
                 mul_alpha.add_input_tensor(alpha)
                 fm_alpha = ofm.clone(op.name + "_alpha", set_unique=True)
                 mul_alpha.set_output_tensor(fm_alpha)
-                mul_alpha.set_ifm_ofm_shapes()
+                set_shapes(mul_alpha)
                 DebugDatabase.add_optimised(op, mul_alpha)
                 if check_quantized_tens_scaling_equal(ifm, ofm):
                     # No scaling is needed
@@ -1428,7 +1436,7 @@ def convert_prelu(op: Operation, arch, nng) -> Operation:
                     # Make sure that fm_id is allocated to a different address than fm_alpha
                     fm_id = ofm.clone(op.name + "_id", set_unique=True)
                     mul_identity.set_output_tensor(fm_id)
-                    mul_identity.set_ifm_ofm_shapes()
+                    set_shapes(mul_identity)
                     DebugDatabase.add_optimised(op, mul_identity)
 
                 # Combine scaled and alpha multiplied values
@@ -1436,7 +1444,7 @@ def convert_prelu(op: Operation, arch, nng) -> Operation:
                 max_op.add_input_tensor(fm_alpha)
                 max_op.add_input_tensor(fm_id)
                 max_op.set_output_tensor(ofm)
-                max_op.set_ifm_ofm_shapes()
+                set_shapes(max_op)
 
                 DebugDatabase.add_optimised(op, max_op)
                 ifm.consumer_list.remove(op)
@@ -1454,7 +1462,7 @@ def convert_prelu(op: Operation, arch, nng) -> Operation:
         min_op.add_input_tensor(zero)
         fm_negative = ifm.clone(op.name + "_negative", set_unique=True)
         min_op.set_output_tensor(fm_negative)
-        min_op.set_ifm_ofm_shapes()
+        set_shapes(min_op)
         DebugDatabase.add_optimised(op, min_op)
 
         # and multiply with alpha tensor
@@ -1463,7 +1471,7 @@ def convert_prelu(op: Operation, arch, nng) -> Operation:
         mul_alpha.add_input_tensor(alpha)
         fm_alpha = ofm.clone(op.name + "_negative_alpha", set_unique=True)
         mul_alpha.set_output_tensor(fm_alpha)
-        mul_alpha.set_ifm_ofm_shapes()
+        set_shapes(mul_alpha)
         DebugDatabase.add_optimised(op, mul_alpha)
 
         # Select (and scale) values > 0
@@ -1471,7 +1479,7 @@ def convert_prelu(op: Operation, arch, nng) -> Operation:
         relu_op.add_input_tensor(ifm)
         fm_scaled = ofm.clone(op.name + "_positive_scaled", set_unique=True)
         relu_op.set_output_tensor(fm_scaled)
-        relu_op.set_ifm_ofm_shapes()
+        set_shapes(relu_op)
         DebugDatabase.add_optimised(op, relu_op)
 
         # Add scaled and alpha multiplied values (without scaling)
@@ -1480,7 +1488,7 @@ def convert_prelu(op: Operation, arch, nng) -> Operation:
         add_op.add_input_tensor(fm_alpha)
         add_op.add_input_tensor(fm_scaled)
         add_op.set_output_tensor(ofm)
-        add_op.set_ifm_ofm_shapes()
+        set_shapes(add_op)
 
         DebugDatabase.add_optimised(op, add_op)
         ifm.consumer_list.remove(op)
